@@ -19,25 +19,33 @@ theorem skeleton_unchanged :
     (Gen.Skel.conds_CodecProto_ReadNext,
      Gen.Skel.stmts_CodecProto_ReadNext,
      Gen.Skel.conds_CodecProto_WriteNext,
+     Gen.Skel.stmts_CodecProto_WriteNext,
      Gen.Skel.conds_CodecJSON_ReadNext,
      Gen.Skel.stmts_CodecJSON_ReadNext,
      Gen.Skel.conds_CodecJSON_WriteNext,
+     Gen.Skel.stmts_CodecJSON_WriteNext,
      Gen.Skel.conds_codecHTTPBody_ReadNext,
      Gen.Skel.stmts_codecHTTPBody_ReadNext,
      Gen.Skel.conds_growcap,
+     Gen.Skel.stmts_growcap,
      Gen.Skel.conds_muxOptions_readAll,
+     Gen.Skel.stmts_muxOptions_readAll,
      Gen.Skel.conds_streamHTTP_readMsg,
      Gen.Skel.stmts_streamHTTP_readMsg)
   = (Expected.C17.conds_CodecProto_ReadNext,
      Expected.C17.stmts_CodecProto_ReadNext,
      Expected.C17.conds_CodecProto_WriteNext,
+     Expected.C17.stmts_CodecProto_WriteNext,
      Expected.C17.conds_CodecJSON_ReadNext,
      Expected.C17.stmts_CodecJSON_ReadNext,
      Expected.C17.conds_CodecJSON_WriteNext,
+     Expected.C17.stmts_CodecJSON_WriteNext,
      Expected.C17.conds_codecHTTPBody_ReadNext,
      Expected.C17.stmts_codecHTTPBody_ReadNext,
      Expected.C17.conds_growcap,
+     Expected.C17.stmts_growcap,
      Expected.C17.conds_muxOptions_readAll,
+     Expected.C17.stmts_muxOptions_readAll,
      Expected.C17.conds_streamHTTP_readMsg,
      Expected.C17.stmts_streamHTTP_readMsg) := rfl
 
